@@ -143,7 +143,7 @@ var xUnits = []xUnit{
 		From: "currBuffer = append(currBuffer, buffer[:n]...)", To: "for {", Outs: []string{"currBuffer"}, After: []string{}, Fresh: []string{"currBuffer"},
 		Writer: &xWriter{Type: "list (list N)", Prims: map[string]xPrim{"t.handleConn": {"go_deliver", []int{1}}}},
 		Funcs:  map[string]xOracle{"t.server.protocol.ParsePackage": {"parse_package", "list N -> Z * Z"}},
-		Ignore: []string{`TLOG.Errorf("parse package error %s %v", conn.RemoteAddr(), err)`}},
+		Ignore: []string{`TLOG.Errorf("parse package error %s %v", conn.RemoteAddr(), err)`, "verifC12BeforeCount(connSt)"}}, // the inserted verif stub (empty without the tag)
 	// C10: what Protocol.Invoke / InvokeTimeout put into the response (request echo, timeout and error answers)
 	{Name: "tr_Error_Error", Dir: "tars", Func: "Error.Error", Recv: true},
 	{Name: "tr_Invoke_rsp_init", Dir: "tars", Func: "Protocol.Invoke",
